@@ -11,6 +11,11 @@ RS = "relative_sequence._messages"
 FRESH_LIST = lambda L: f"forall(0, len({L}), lambda j: fresh({L}[j]))"
 
 # ---------------------------------------------------------------- AbsoluteSequence.to_relative_sequence
+F8 = ("message_type", "note", "velocity", "control", "program", "numerator", "denominator", "key")        # (copy fills in a missing channel)
+SAME8 = lambda a, b: " and ".join(f"{a}.{f} == {b}.{f}" for f in F8)
+# every event of the absolute list (end markers excepted) is in the relative list, after waits that add up to its tick (nothing is lost on conversion)
+EVENTS_KEPT_REL = lambda out, hi: (f"forall(0, {hi}, lambda j: implies({M}[j].message_type != MessageType.INTERNAL,"
+                                   f" exists(0, len({out}), lambda p: {SAME8(out + '[p]', M + '[j]')} and wsum({out}, p) == {M}[j].time)))")
 contract("AbsoluteSequence.to_relative_sequence", params={"self": "ref:AbsoluteSequence"}, result="ref:RelativeSequence", allocates=True,
          requires=[WF_ABS()],
          modifies={"@lists": M},          # the canonical sort re-orders the sequence's own list
@@ -21,8 +26,10 @@ contract("AbsoluteSequence.to_relative_sequence", params={"self": "ref:AbsoluteS
              ("events_untimed", f"forall(0, len({R}), lambda j: implies(not {IS(R + '[j]', 'WAIT')}, is_none({R}[j].time) and not {IS(R + '[j]', 'INTERNAL')}))"),
              ("source_kept", f"len({M}) == old(len({M})) and {WF_ABS()}"),
              ("duration", f"wsum({R}, len({R})) == ite(len({M}) > 0, {M}[len({M}) - 1].time, 0)"),
+             ("no_event_lost", EVENTS_KEPT_REL(R, f"len({M})")),
          ],
          loops={"L0": dict(fingerprint="for msg in self._messages", inv=[
+             ("events_kept", EVENTS_KEPT_REL(RS, "i")),
              ("out_fresh", f"fresh(relative_sequence) and fresh({RS}) and {RS} != {M} and {FRESH_LIST(RS)}"),
              ("out_wf", WF_REL(RS)),
              ("out_waits_positive", f"forall(0, len({RS}), lambda j: implies({IS(RS + '[j]', 'WAIT')}, {RS}[j].time > 0))"),
